@@ -69,6 +69,29 @@ def run_traces(ctx: Ctx, specs: list[dict], prefixes: tuple[str, ...], *, label=
                                          f"kwargs={r['spec'].get('kwargs')} msgs={r.get('msgs')}",
                               "events": [e for e in r["trace"]][-12:]})
     ctx.add_counts(distinct_nontrivial=len(shapes))
+    # what the real traces exercised (vacuity on the code side is visible here)
+    ex = ctx.cov.setdefault("exercised_by_real_traces", {})
+    for r in runs:
+        tr = r["trace"]
+        kinds = [e["e"] for e in tr]
+        feats = {
+            "restart_from_checkpoint": kinds.count("Start") > 1,
+            "line_search_failed": any(e["e"] == "LSEnd" and e["ret"] == "none" for e in tr),
+            "accepted_trial_not_last": any(e["e"] == "EvalF" and e.get("site") == "main" and i > 0 and tr[i - 1]["e"] == "LSEnd"
+                                           for i, e in enumerate(tr)),
+            "update_rejected": any(e["e"] == "MemUpd" and e["ids"] == e["before"] for e in tr),
+            "memory_full_eviction": any(e["e"] == "MemUpd" and e["ids"] != e["before"] and len(e["ids"]) == len(e["before"]) for e in tr),
+            "callback_stopped": any(e["e"] == "Callback" and e.get("ret") for e in tr),
+            "finite_difference_gradient": "EvalS" in kinds,
+            "fault_injected": any(e.get("exc") for e in tr),
+            "kernel_calls_judged": any(e["e"] == "Cauchy" and e.get("judged") for e in tr),
+        }
+        for e in tr:
+            if e["e"] == "Return":
+                feats["message_" + str(e["msg"])] = True
+        for k, v in feats.items():
+            if v:
+                ex[k] = ex.get(k, 0) + 1
     ctx.add_samples([summarize(r) for r in runs[:3]])
     if other:
         ctx.cov.setdefault("clauses_of_other_properties_seen", {})
